@@ -201,6 +201,12 @@ func init() {
 			{"familySortedRows", "Less", "familyLessSrc"},
 			{"BrokerRow", "WriteTo", "writeToSrc"},
 			{"BrokerBatchRows", "NewShardGroupIterator", "newShardGroupIteratorSrc"},
+			{"BrokerBatchRows", "reset", "batchResetSrc"},
+			{"BrokerBatchRows", "TryAppend", "batchTryAppendSrc"},
+			{"BrokerBatchRows", "Rows", "batchRowsSrc"},
+			{"BrokerBatchRows", "Len", "batchLenSrc"},
+			{"BrokerBatchRows", "Release", "batchReleaseSrc"},
+			{"BrokerRow", "FromBlock", "fromBlockSrc"},
 			{"BrokerBatchShardIterator", "HasRowsForNextShard", "hasRowsForNextShardSrc"},
 			{"BrokerBatchShardFamilyIterator", "reset", "familyResetSrc"},
 			{"BrokerBatchShardFamilyIterator", "isSameFamily", "isSameFamilySrc"},
@@ -360,7 +366,8 @@ func init() {
 			}
 			fmt.Fprintf(&sb, "/-- the characters escaped with a backslash (`k` of %s, in pass order) -/\ndef influx%s%s : List Char := [%s]\n\n", nm, strings.ToUpper(nm[:1]), nm[1:], strings.Join(q, ", "))
 		}
-		for _, f := range [][2]string{{"walkToUnescapedChar", "influxWalkToUnescapedCharSrc"}, {"unescapeTag", "influxUnescapeTagSrc"}, {"unescapeMetricName", "influxUnescapeMetricNameSrc"}} {
+		for _, f := range [][2]string{{"walkToUnescapedChar", "influxWalkToUnescapedCharSrc"}, {"unescapeTag", "influxUnescapeTagSrc"}, {"unescapeMetricName", "influxUnescapeMetricNameSrc"},
+			{"parseField", "influxParseFieldSrc"}, {"toLinSimpleField", "influxToLinSimpleFieldSrc"}, {"parseFields", "influxParseFieldsSrc"}} {
 			s, err := c16BodySrc(fsetI, FindFunc(ip, "", f[0]))
 			if err != nil {
 				return "", fmt.Errorf("%s: %w", f[0], err)
